@@ -31,7 +31,7 @@ Structure of the argument:
   values included.
 * `C03_full` is the unrestricted statement; `C03_partial` proves it under hypotheses that are exactly
   the recorded findings: F-C03-a (`Nondegenerate`), F-C03-b (`0 < n ∨ NoCategoricalPairs`),
-  F-C03-d / F-C03-e (`SpelledCanonically`), each with a counter-witness below; F-C03-c (fixed) has
+  each with a counter-witness below; F-C03-c/d/e/f (fixed) have
   a theorem on the fixed rule and a counter-witness on the model variant with the old rule.
   `RtlDraws` says that the two shuffles of the RTL layer are permutations (randomness as data).
 -/
@@ -146,49 +146,40 @@ def C03_full : Prop :=
     sys.Init w0 → ∀ (n : Nat) (w : ∀ v, sys.S v), Reaches sys.C w0 n w →
       MonotoneAndBounded c g (sys.realise w)
 
-/-- excluded by findings F-C03-d (an RTL ensemble files a numeric feature under `'increasing'`
-only when its monotonicity is spelled exactly `1`, `-1`, `'increasing'`, `'decreasing'`) and
-F-C03-e (category pairs are honoured only when given as a python `list`). -/
-def SpelledCanonically (c : ModelConfig) (f : Nat) : Prop :=
-  (c.kind = .ensemble → c.rtl = true →
-    (∀ cn, (featAt c f).mono = .inc cn → cn = true) ∧ (∀ cn, (featAt c f).mono = .dec cn → cn = true)) ∧
-  (∀ ps l, (featAt c f).mono = .pairs ps l → l = true)
-
 /-! ## T2 — composition -/
 
-/-- **F-C03-c, the fixed rule.** With the current filing rule of `build_rtl_layer`, every feature
-with a non-trivial monotonicity (canonically spelled) — in particular a categorical feature with a
-LIST of ordering pairs — is filed under `'increasing'`. -/
-theorem rtl_rule_fixed {c : ModelConfig} {g : LayerGraph} (hb : buildSpec c = .ok g)
-    (hk : c.kind = .ensemble) (hr : c.rtl = true) {f : Nat} (hf : f < c.features.length) {rq : Req}
-    (hreq : ReqOf (featAt c f).mono rq) (hsp : SpelledCanonically c f) :
-    rtlIncreasing (featAt c f) = true := by
-  obtain ⟨_, cals, _, _, hc, _, _, _⟩ := buildSpec_rtl hb hk hr
-  obtain ⟨cal, _, hmk⟩ := forall₂_of_mem_left (mapMExcept_ok hc) (mem_allFeats.mpr hf)
-  generalize hm : (featAt c f).mono = m at hreq
-  unfold rtlIncreasing
-  cases hreq with
-  | inc cn => simp only [hm]; exact (hsp.1 hk hr).1 cn hm
-  | dec cn => simp only [hm]; exact (hsp.1 hk hr).2 cn hm
-  | pair ps l a b hab =>
-    have hl := hsp.2 ps l hm
-    have hnb := mkCalibrator_pairs_categorical hmk hm
-    have hne : ps ≠ [] := by intro e; subst e; cases hab
-    simp only [hm, hl]
-    cases ps with
-    | nil => exact absurd rfl hne
-    | cons _ _ => simpa using hnb
+/-- **F-C03-c / F-C03-d, the fixed rule (b13cb79, defc941).** With the current filing rule of
+`build_rtl_layer` EVERY feature with a non-trivial monotonicity — increasing / decreasing in any
+spelling `canonicalize_monotonicity` accepts, category pairs of any python type — is filed under
+`'increasing'`: no hypothesis on the spelling is needed any more. -/
+theorem rtl_rule_fixed (f : Feature) {rq : Req} (hreq : ReqOf f.mono rq) : rtlIncreasing f = true :=
+  hreq.truthy
+
+/-- **F-C03-e, the fixed rule (f70b866).** Category pairs given as a `list` OR a `tuple` reach the
+calibrator: every calibrator of such a feature carries every configured pair. -/
+theorem tuple_pairs_reach_calibrator {c : ModelConfig} {g : LayerGraph} (hb : buildSpec c = .ok g) {f : Nat}
+    {ps : List (Nat × Nat)} {k : PairsKind} (hm : (featAt c f).mono = .pairs ps k) (hk : k = .list ∨ k = .tuple) :
+    ∀ cal ∈ g.calibrators, cal.feature = f → cal.pairs = ps := by
+  intro cal hcal hcf
+  obtain ⟨rng, u, hmk⟩ := buildSpecWith_cals hb cal hcal
+  rw [hcf] at hmk
+  have hnb := mkCalibrator_pairs_categorical hmk hm
+  unfold mkCalibrator at hmk
+  simp only at hmk
+  split_ifs at hmk with h0 h1
+  · simp only [Except.ok.injEq] at hmk; subst hmk
+    rcases hk with rfl | rfl <;> simp [hm, calPairs, calPairsWith, pairsHonoured]
+  · simp [hnb] at h1
 
 /-- **T2, key structural lemma.** In the graph the builders produce, a feature configured
-increasing / decreasing / with category pairs meets only calibrators of that direction / with that
-pair, and every lattice or linear axis it feeds is marked increasing — for calibrated linear,
-calibrated lattice, explicit (and random) ensembles and RTL ensembles alike. -/
+increasing / decreasing (any accepted spelling) / with category pairs (list or tuple) meets only
+calibrators of that direction / with that pair, and every lattice or linear axis it feeds is marked
+increasing — for calibrated linear, calibrated lattice, explicit (and random) ensembles and RTL
+ensembles alike. -/
 theorem buildSpec_wired {c : ModelConfig} {g : LayerGraph} (hb : buildSpec c = .ok g) {f : Nat}
     (hf : f < c.features.length) {rq : Req} (hreq : ReqOf (featAt c f).mono rq)
-    (hsp : SpelledCanonically c f)
     (hdraw : c.kind = .ensemble → c.rtl = true → RtlDraws rtlIncreasing c) : Wired g f rq :=
-  buildSpecWith_wired hb hf hreq hsp.2
-    (fun hk hr => ⟨rtl_rule_fixed hb hk hr hf hreq hsp, hdraw hk hr⟩)
+  buildSpecWith_wired hb hf hreq (fun hk hr => ⟨rtl_rule_fixed _ hreq, hdraw hk hr⟩)
 
 /-- **T2 (composition).** In a graph produced by `buildSpec`, if the layer functions have the
 per-layer properties (`FnsOk`, i.e. the weights satisfy their invariants), the model function is
@@ -198,10 +189,10 @@ values (composition of monotone maps; a decreasing feature is a decreasing calib
 increasing axis). -/
 theorem monotone_clause {c : ModelConfig} {g : LayerGraph} (hb : buildSpec c = .ok g) {F : Fns}
     (hF : FnsOk g F) {f : Nat} (hf : f < c.features.length) {rq : Req}
-    (hreq : ReqOf (featAt c f).mono rq) (hsp : SpelledCanonically c f)
+    (hreq : ReqOf (featAt c f).mono rq)
     (hdraw : c.kind = .ensemble → c.rtl = true → RtlDraws rtlIncreasing c) :
     MonoClause c g F f rq := by
-  have hW := buildSpec_wired hb hf hreq hsp hdraw
+  have hW := buildSpec_wired hb hf hreq hdraw
   have hR := buildSpecWith_ranges hb hdraw
   have hmiss : ∀ cal ∈ g.calibrators, cal.feature = f → cal.missing = (featAt c f).default := by
     intro cal hcal hcf
@@ -267,18 +258,18 @@ theorem output_bounds_trivial (g : LayerGraph) (F : Fns) (x : List ℚ) : inB no
 
 /-- **C03 (partial).** For every config the builders accept, every realisation of the model's
 weights (`System`), every initial state the initializers can produce and EVERY history of arbitrary
-updates each followed by the constraints: the model function is monotone in every canonically
-spelled constrained feature for all pairs of non-missing points, and — when no normalised `Linear`
+updates each followed by the constraints: the model function is monotone in every
+constrained feature (any accepted spelling; pairs as list or tuple — anything else is rejected) for all pairs of non-missing points, and — when no normalised `Linear`
 has degenerated to all-zero weights — within the output bounds at every input.
 Hypotheses beyond `verify_config` = recorded findings: `0 < n ∨ NoCategoricalPairs g` (F-C03-b),
-`SpelledCanonically` (F-C03-d, F-C03-e), `Nondegenerate` (F-C03-a); `RtlDraws`: the RTL shuffles
-are permutations. Restoring saved weights reproduces the same weight values, hence the same
+`Nondegenerate` (F-C03-a); `RtlDraws`: the RTL shuffles are permutations. (The former hypotheses on
+spellings, F-C03-d/e/f, are gone: fixed by defc941, f70b866, e8dafc0.) Restoring saved weights reproduces the same weight values, hence the same
 realised functions: the statement is about the weight values. -/
 theorem C03_partial (c : ModelConfig) (g : LayerGraph) (hb : buildSpec c = .ok g) (sys : System g)
     (w0 : ∀ v, sys.S v) (hinit : sys.Init w0) (n : Nat) (w : ∀ v, sys.S v)
     (hr : Reaches sys.C w0 n w) (hhist : 0 < n ∨ NoCategoricalPairs g)
     (hdraw : c.kind = .ensemble → c.rtl = true → RtlDraws rtlIncreasing c) :
-    (∀ f rq, f < c.features.length → ReqOf (featAt c f).mono rq → SpelledCanonically c f →
+    (∀ f rq, f < c.features.length → ReqOf (featAt c f).mono rq →
       MonoClause c g (sys.realise w) f rq) ∧
     (Nondegenerate g (sys.realise w) → ∀ x : List ℚ, ValidInputs g x →
       inB c.outMin c.outMax (forward g (sys.realise w) x)) := by
@@ -286,7 +277,7 @@ theorem C03_partial (c : ModelConfig) (g : LayerGraph) (hb : buildSpec c = .ok g
     invariant_after_history_rel sys.C sys.Inv sys.establishes hr
       (hhist.imp id (fun h => sys.init_sound h w0 hinit))
   have hF := sys.sound w hinv
-  exact ⟨fun f rq hf hreq hsp => monotone_clause hb hF hf hreq hsp hdraw,
+  exact ⟨fun f rq hf hreq => monotone_clause hb hF hf hreq hdraw,
     fun hN x hx => output_bounds hb hF hN hdraw x hx⟩
 
 /-- the same for functional constraints and the literal `foldl (constraint ∘ update)` -/
@@ -295,7 +286,7 @@ theorem C03_partial_foldl (c : ModelConfig) (g : LayerGraph) (hb : buildSpec c =
     (w0 : ∀ v, sys.S v) (hinit : sys.Init w0)
     (h : List ((∀ v, sys.S v) → (∀ v, sys.S v))) (hhist : h ≠ [] ∨ NoCategoricalPairs g)
     (hdraw : c.kind = .ensemble → c.rtl = true → RtlDraws rtlIncreasing c) :
-    (∀ f rq, f < c.features.length → ReqOf (featAt c f).mono rq → SpelledCanonically c f →
+    (∀ f rq, f < c.features.length → ReqOf (featAt c f).mono rq →
       MonoClause c g (sys.realise (runHistory cons w0 h)) f rq) ∧
     (Nondegenerate g (sys.realise (runHistory cons w0 h)) →
       ∀ x : List ℚ, ValidInputs g x →
@@ -755,28 +746,29 @@ theorem F_C03_b_counter_witness :
   constructor <;> decide +kernel
 
 /-- **F-C03-c (fixed by b13cb79), counter-witness on the model VARIANT with the old rule.** The old
-`build_rtl_layer` filed a categorical feature with a LIST of ordering pairs under
-`'unconstrained'`: in EVERY RTL ensemble built with the old rule, every lattice axis such a feature
-feeds is NOT monotone (mark 0) although its calibrator carries the pairs — so `Wired` fails and a
-lattice decreasing along that axis reverses the order. (`rtl_rule_fixed` is the theorem on the
-fixed rule.) -/
+`build_rtl_layer` filed a categorical feature with ordering pairs under `'unconstrained'`: in
+EVERY RTL ensemble built with the old rule, every lattice axis such a feature feeds is NOT monotone
+(mark 0) although its calibrator carries the pairs — so `Wired` fails and a lattice decreasing along
+that axis reverses the order. (`rtl_rule_fixed` is the theorem on the fixed rule.) -/
 theorem F_C03_c_old_rule_counter_witness {c : ModelConfig} {g : LayerGraph} (hb : buildSpecOld c = .ok g)
     (hk : c.kind = .ensemble) (hr : c.rtl = true) (hdraw : RtlDraws rtlIncreasingOld c) {f : Nat}
-    {ps : List (Nat × Nat)} (hm : (featAt c f).mono = .pairs ps true) :
+    {ps : List (Nat × Nat)} {k : PairsKind} (hm : (featAt c f).mono = .pairs ps k) :
     ∀ b ∈ g.blocks, ∀ d, d < b.inputs.length → (b.inputs.getD d default).1 = f → b.monos.getD d 0 = 0 :=
   buildSpecWith_rtl_unmarked hb hk hr hdraw (by simp [rtlIncreasingOld, hm])
 
-/-- the feature of the F-C03-c witness: old rule `'unconstrained'`, current rule `'increasing'` -/
-example : rtlIncreasingOld { numBuckets := 3, mono := .pairs [(0, 1), (1, 2)] true } = false ∧
-    rtlIncreasing { numBuckets := 3, mono := .pairs [(0, 1), (1, 2)] true } = true := by decide
+/-- the feature of the F-C03-c witness: old rule `'unconstrained'`, later rules `'increasing'` -/
+example : rtlIncreasingOld { numBuckets := 3, mono := .pairs [(0, 1), (1, 2)] .list } = false ∧
+    rtlIncreasingLiteral { numBuckets := 3, mono := .pairs [(0, 1), (1, 2)] .list } = true ∧
+    rtlIncreasing { numBuckets := 3, mono := .pairs [(0, 1), (1, 2)] .list } = true := by decide
 
-/-- **F-C03-d (counter-witness, CURRENT rule).** A numeric feature whose monotonicity is spelled
-e.g. `'Increasing'` / `'DECREASING'` (accepted by `canonicalize_monotonicity`, hence by the
-calibrator, and by `_monotonicities_from_feature_configs`) is filed under `'unconstrained'` by the
-literal list `[1, -1, 'increasing', 'decreasing']` in `build_rtl_layer`: in EVERY RTL ensemble its
-monotone calibrator feeds only NON-monotone lattice axes (mark 0). -/
-theorem F_C03_d_counter_witness {c : ModelConfig} {g : LayerGraph} (hb : buildSpec c = .ok g)
-    (hk : c.kind = .ensemble) (hr : c.rtl = true) (hdraw : RtlDraws rtlIncreasing c) {f : Nat}
+/-- **F-C03-d (fixed by defc941), counter-witness on the model VARIANT with the literal-list rule.**
+A numeric feature whose monotonicity is spelled e.g. `'Increasing'` / `'DECREASING'` (accepted by
+`canonicalize_monotonicity`, hence by the calibrator, and by `_monotonicities_from_feature_configs`)
+was filed under `'unconstrained'` by the literal list `[1, -1, 'increasing', 'decreasing']`: in EVERY
+RTL ensemble built with that rule its monotone calibrator feeds only NON-monotone lattice axes
+(mark 0). With the current rule the axes are marked (`rtl_rule_fixed`, `buildSpec_wired`). -/
+theorem F_C03_d_old_rule_counter_witness {c : ModelConfig} {g : LayerGraph} (hb : buildSpecLiteral c = .ok g)
+    (hk : c.kind = .ensemble) (hr : c.rtl = true) (hdraw : RtlDraws rtlIncreasingLiteral c) {f : Nat}
     (hm : (featAt c f).mono = .inc false ∨ (featAt c f).mono = .dec false) :
     (∀ cal ∈ g.calibrators, cal.feature = f → cal.mono = 1 ∨ cal.mono = -1) ∧
     ∀ b ∈ g.blocks, ∀ d, d < b.inputs.length → (b.inputs.getD d default).1 = f → b.monos.getD d 0 = 0 := by
@@ -787,45 +779,53 @@ theorem F_C03_d_counter_witness {c : ModelConfig} {g : LayerGraph} (hb : buildSp
     obtain ⟨hv, _⟩ := buildSpec_rtl hb hk hr
     by_cases hfl : f < c.features.length
     · rcases hm with hm | hm
-      · exact Or.inl (mkCalibrator_meets hmk (verify_features hv hfl) (rq := .inc) (by rw [hm]; exact .inc _)
-          (fun ps l h => by rw [hm] at h; cases h))
-      · exact Or.inr (mkCalibrator_meets hmk (verify_features hv hfl) (rq := .dec) (by rw [hm]; exact .dec _)
-          (fun ps l h => by rw [hm] at h; cases h))
+      · exact Or.inl (mkCalibrator_meets hmk (verify_features hv hfl) (rq := .inc) (by rw [hm]; exact .inc _))
+      · exact Or.inr (mkCalibrator_meets hmk (verify_features hv hfl) (rq := .dec) (by rw [hm]; exact .dec _))
     · have : featAt c f = default := by
         unfold featAt; rw [List.getD_eq_getElem?_getD, List.getElem?_eq_none (by omega)]; rfl
       rw [this] at hm; rcases hm with hm | hm <;> cases hm
-  · exact buildSpecWith_rtl_unmarked hb hk hr hdraw (by rcases hm with hm | hm <;> simp [rtlIncreasing, hm])
+  · exact buildSpecWith_rtl_unmarked hb hk hr hdraw (by rcases hm with hm | hm <;> simp [rtlIncreasingLiteral, hm])
 
-/-- in a calibrated lattice model the same spelling is honoured (axis marked 1) -/
-example : ((buildSpec { kind := .lattice, features := [{ mono := .inc false }, { mono := .none }] }).toOption.map
-    (fun g => g.blocks.map (·.monos))) = some [[1, 0]] := by decide +kernel
+/-- the feature of the F-C03-d witness under the three rules -/
+example : rtlIncreasingLiteral { mono := .inc false } = false ∧ rtlIncreasing { mono := .inc false } = true ∧
+    rtlIncreasingLiteral { mono := .dec false } = false ∧ rtlIncreasing { mono := .dec false } = true := by decide
 
-/-- **F-C03-e (counter-witness, current code).** Category pairs given as a TUPLE of pairs pass
-`verify_config` (`np.iterable`) but `build_multi_unit_calibration_layers` passes
-`monotonicities=None` (`isinstance(…, list)` fails): in EVERY model the calibrator of such a feature
-carries NO pairs (it is unconstrained), while `_monotonicities_from_feature_configs` marks the
-lattice / linear axis monotone. -/
-theorem F_C03_e_counter_witness {c : ModelConfig} {g : LayerGraph} (hb : buildSpec c = .ok g) {f : Nat}
-    {ps : List (Nat × Nat)} (hm : (featAt c f).mono = .pairs ps false) :
-    ∀ cal ∈ g.calibrators, cal.feature = f → cal.pairs = [] ∧ cal.mono = 0 := by
-  intro cal hcal hcf
-  obtain ⟨rng, u, hmk⟩ := buildSpecWith_cals hb cal hcal
-  rw [hcf] at hmk
-  have hnb := mkCalibrator_pairs_categorical hmk hm
-  unfold mkCalibrator at hmk
-  simp only at hmk
-  split_ifs at hmk with h0 h1
-  · simp only [Except.ok.injEq] at hmk; subst hmk
-    simp [hm]
-  · simp [hnb] at h1
+/-- **F-C03-e (fixed by f70b866), counter-witness on the VARIANT of the type test before the fix**
+(`isinstance(…, list)`): a TUPLE of pairs gave a calibrator without pairs; the current test
+(`isinstance(…, (list, tuple))`) passes them on (`tuple_pairs_reach_calibrator`). -/
+theorem F_C03_e_old_rule_counter_witness :
+    calPairsWith pairsHonouredOld (.pairs [(0, 1), (1, 2)] .tuple) = [] ∧
+    calPairs (.pairs [(0, 1), (1, 2)] .tuple) = [(0, 1), (1, 2)] ∧
+    calPairs (.pairs [(0, 1), (1, 2)] .list) = [(0, 1), (1, 2)] := by decide
 
-/-- the F-C03-e witness on a concrete calibrated lattice config: tuple → calibrator without pairs on
-an axis marked 1; list → the calibrator carries the pair -/
-example : ((buildSpec { kind := .lattice, features := [{ mono := .inc true }, { numBuckets := 2, mono := .pairs [(0, 1)] false }] }).toOption.map
-    (fun g => (g.calibrators.map (·.pairs), g.blocks.map (·.monos)))) = some ([[], []], [[1, 1]]) ∧
-  ((buildSpec { kind := .lattice, features := [{ mono := .inc true }, { numBuckets := 2, mono := .pairs [(0, 1)] true }] }).toOption.map
-    (fun g => (g.calibrators.map (·.pairs), g.blocks.map (·.monos)))) = some ([[], [(0, 1)]], [[1, 1]]) := by
-  constructor <;> decide +kernel
+/-- **F-C03-f (fixed by e8dafc0), counter-witness on the VARIANT of `_verify_feature_config` before
+the fix** (`np.iterable`): category pairs given as a `set` (or the keys of a `dict`) passed the
+check, the calibrator builder dropped them (`calPairs … = []`) and the axis was marked monotone.
+The current check rejects them. -/
+theorem F_C03_f_old_rule_counter_witness :
+    verifyFeatureOld { numBuckets := 3, mono := .pairs [(0, 1), (1, 2)] .other } = true ∧
+    calPairs (.pairs [(0, 1), (1, 2)] .other) = [] ∧ axisMono (.pairs [(0, 1), (1, 2)] .other) = 1 ∧
+    verifyFeature { numBuckets := 3, mono := .pairs [(0, 1), (1, 2)] .other } = false := by decide
+
+/-- **F-C03-f, the fixed rule.** A config with a categorical feature whose (non-empty) pairs are
+neither a `list` nor a `tuple` is rejected: no model is built from it. -/
+theorem nonsequence_pairs_rejected {c : ModelConfig} {f : Nat} (hf : f < c.features.length)
+    (hnb : (featAt c f).numBuckets ≠ 0) {ps : List (Nat × Nat)} (hps : ps ≠ [])
+    (hm : (featAt c f).mono = .pairs ps .other) : ∀ g, buildSpec c ≠ .ok g := by
+  intro g hb
+  have hv := verify_features (buildSpecWith_verify hb) hf
+  cases ps with
+  | nil => exact hps rfl
+  | cons _ _ => simp [verifyFeature, hnb, hm] at hv
+
+/-- concrete calibrated lattice configs: a set → `ValueError`; a tuple, a list → the calibrator
+carries the pair on an axis marked 1; `'Increasing'` → axis marked 1 -/
+example : (buildSpec { kind := .lattice, features := [{ mono := .inc true }, { numBuckets := 2, mono := .pairs [(0, 1)] .other }] }).toOption = none ∧
+  ((buildSpec { kind := .lattice, features := [{ mono := .inc true }, { numBuckets := 2, mono := .pairs [(0, 1)] .tuple }] }).toOption.map
+    (fun g => (g.calibrators.map (·.pairs), g.blocks.map (·.monos)))) = some ([[], [(0, 1)]], [[1, 1]]) ∧
+  ((buildSpec { kind := .lattice, features := [{ mono := .inc false }, { mono := .none }] }).toOption.map
+    (fun g => g.blocks.map (·.monos))) = some [[1, 0]] := by
+  refine ⟨?_, ?_, ?_⟩ <;> decide +kernel
 
 /-- an RTL ensemble of two rank-1 lattices over a numeric feature and a categorical feature;
 shared calibrators -/
@@ -837,21 +837,14 @@ def cfgRtl (m0 m1 : MonoSpec) : ModelConfig :=
 /-! ## non-vacuity -/
 
 /-- the RTL example meets the hypotheses of the structural lemma: the shuffles are permutations -/
-example : RtlDraws rtlIncreasing (cfgRtl (.inc true) (.pairs [(0, 1)] true)) := by
+example : RtlDraws rtlIncreasing (cfgRtl (.inc false) (.pairs [(0, 1)] .tuple)) := by
   refine ⟨by decide +kernel, ?_, ?_⟩
-  · rw [show (rtlFlat (cfgRtl (.inc true) (.pairs [(0, 1)] true)) rtlIncreasing).length = 2 by decide +kernel]
+  · rw [show (rtlFlat (cfgRtl (.inc false) (.pairs [(0, 1)] .tuple)) rtlIncreasing).length = 2 by decide +kernel]
     decide
   · show [1, 0].Perm (List.range 2)
     decide
 
-example : SpelledCanonically (cfgRtl (.inc true) (.pairs [(0, 1)] true)) 1 := by
-  refine ⟨fun _ _ => ⟨fun cn h => ?_, fun cn h => ?_⟩, fun ps l h => ?_⟩
-  · simp [cfgRtl, featAt] at h
-  · simp [cfgRtl, featAt] at h
-  · simp only [cfgRtl, featAt, List.getD_cons_succ, List.getD_cons_zero, MonoSpec.pairs.injEq] at h
-    exact h.2.symm
-
-example : ReqOf (featAt (cfgRtl (.inc true) (.pairs [(0, 1)] true)) 1).mono (.pair 0 1) :=
+example : ReqOf (featAt (cfgRtl (.inc false) (.pairs [(0, 1)] .tuple)) 1).mono (.pair 0 1) :=
   .pair _ _ 0 1 (by simp)
 
 /-! ## non-vacuity: a concrete `System` built from the real constraint models -/
@@ -860,7 +853,7 @@ example : ReqOf (featAt (cfgRtl (.inc true) (.pairs [(0, 1)] true)) 1).mono (.pa
 ordering pair (0, 1), lattice sizes [2, 2], output bounds [0, 1] -/
 def cfgEx : ModelConfig :=
   { kind := .lattice, outMin := some 0, outMax := some 1,
-    features := [{ mono := .inc true, numKeypoints := 2 }, { numBuckets := 2, mono := .pairs [(0, 1)] true }] }
+    features := [{ mono := .inc true, numKeypoints := 2 }, { numBuckets := 2, mono := .pairs [(0, 1)] .list }] }
 def cal0 : Calibrator :=
   { feature := 0, categorical := false, units := 1, mono := 1, pairs := [], numBuckets := 0, numKeypoints := 2,
     outMin := some 0, outMax := some 1, clampMin := false, clampMax := false, convexity := 0, missing := none,
@@ -988,17 +981,8 @@ example (w0 w : ∀ v, ExS v) (n : Nat) (hn : 0 < n) (hr : Reaches exC w0 n w) :
     ∀ x, ValidInputs gEx x → inB (some 0) (some 1) (forward gEx (exRealise w) x) := by
   obtain ⟨h1, h2⟩ := C03_partial cfgEx gEx buildSpec_cfgEx exSystem w0 trivial n w hr (Or.inl hn)
     (by intro hk; cases hk)
-  have hsp : ∀ f, SpelledCanonically cfgEx f := by
-    intro f
-    refine ⟨(fun hk => by cases hk), fun ps l h => ?_⟩
-    rcases f with _ | _ | f
-    · simp [cfgEx, featAt] at h
-    · simp only [cfgEx, featAt, List.getD_cons_succ, List.getD_cons_zero, MonoSpec.pairs.injEq] at h
-      exact h.2.symm
-    · have : featAt cfgEx (f + 2) = default := by simp [cfgEx, featAt]
-      rw [this] at h; cases h
-  refine ⟨h1 0 .inc (by simp [cfgEx]) (.inc true) (hsp 0),
-    h1 1 (.pair 0 1) (by simp [cfgEx]) (.pair _ _ 0 1 (by simp)) (hsp 1), ?_⟩
+  refine ⟨h1 0 .inc (by simp [cfgEx]) (.inc true),
+    h1 1 (.pair 0 1) (by simp [cfgEx]) (.pair _ _ 0 1 (by simp)), ?_⟩
   apply h2
   exact ⟨(fun b hb hk _ => by simp only [gEx, List.mem_singleton] at hb; subst hb; cases hk),
     (fun ub e => by cases e)⟩
